@@ -222,6 +222,7 @@ func typeQualifier(p *types.Package) string { return shortPkg(p.Path()) }
 
 var aliasByte = regexp.MustCompile(`\bbyte\b`)
 var aliasRune = regexp.MustCompile(`\brune\b`)
+var aliasAny = regexp.MustCompile(`\bany\b`)
 
 // typeStr renders a type for heap/sort names; the universe aliases byte/rune are normalised so that identical
 // types always share one heap.
@@ -232,6 +233,9 @@ func typeStr(t types.Type) string {
 	}
 	if strings.Contains(s, "rune") {
 		s = aliasRune.ReplaceAllString(s, "int32")
+	}
+	if strings.Contains(s, "any") {
+		s = aliasAny.ReplaceAllString(s, "interface{}")
 	}
 	return s
 }
